@@ -20,13 +20,15 @@ Import ListNotations.
 """
 
 CL = "g14"
-FORMS = ["bare", "attr", "alias", "wrapped", "inarg", "inarg-attr"]
+FORMS = ["bare", "attr", "alias", "wrapped", "inarg", "inarg-attr", "wrapped-class", "wrapped-lru"]
 
 
 def render_graph(pkg, name, kinds, edges, forms, hidden):
     """kinds: list of 'm'/'p'; edges: set of (i, j); node i lives in module <name> unless form 'attr' targets,
     which are re-exported through the sibling module <name>_x"""
-    lines = ["import functools", "from twosigma.memento import memento_function", "from . import %s_x" % name, "", "def _idn(v):", "    return v", ""]
+    lines = ["import functools", "from twosigma.memento import memento_function", "from . import %s_x" % name, "", "def _idn(v):", "    return v", "",
+             "class _Wrap:", "    \"\"\"a class-based decorator: an object (not a function) that carries __wrapped__\"\"\"", "    def __init__(self, f):",
+             "        functools.update_wrapper(self, f)", "        self._f = f", "    def __call__(self, *a, **k):", "        return self._f(*a, **k)", ""]
     n = len(kinds)
     # definitions first, bodies refer to names resolved at call time
     for i, k in enumerate(kinds):
@@ -46,7 +48,10 @@ def render_graph(pkg, name, kinds, edges, forms, hidden):
                     inner = ("n%d" % j) if form == "inarg" else ("%s_x.n%d" % (name, j))
                     lines.append("    r += _idn(%s(x - 1)).real" % inner)
                     continue
-                ref = {"bare": "n%d" % j, "attr": "%s_x.n%d" % (name, j), "alias": "al%d_%d" % (i, j), "wrapped": "wr%d_%d" % (i, j)}[form]
+                if form in ("wrapped-class", "wrapped-lru") and kinds[j] == "p":
+                    form = "bare"          # these wrappers are used around memento functions
+                ref = {"bare": "n%d" % j, "attr": "%s_x.n%d" % (name, j), "alias": "al%d_%d" % (i, j), "wrapped": "wr%d_%d" % (i, j),
+                       "wrapped-class": "wc%d_%d" % (i, j), "wrapped-lru": "wl%d_%d" % (i, j)}[form]
                 lines.append("    r += %s(x - 1)" % ref)
         lines.append("    if fa is not None:")
         lines.append("        r += (fa[0] if isinstance(fa, list) else fa['k'] if isinstance(fa, dict) else fa)(0)")
@@ -61,6 +66,10 @@ def render_graph(pkg, name, kinds, edges, forms, hidden):
                 lines.append("al%d_%d = n%d" % (i, j, j))
             elif form == "wrapped":
                 lines.append("wr%d_%d = functools.wraps(n%d)(lambda *a, **k: n%d(*a, **k))" % (i, j, j, j))
+            elif form == "wrapped-class" and kinds[j] != "p":
+                lines.append("wc%d_%d = _Wrap(n%d)" % (i, j, j))
+            elif form == "wrapped-lru" and kinds[j] != "p":
+                lines.append("wl%d_%d = functools.lru_cache(maxsize=None)(n%d)" % (i, j, j))
     lines.append("for _i in range(%d):" % n)
     lines.append("    setattr(%s_x, 'n%%d' %% _i, globals()['n%%d' %% _i])" % name)
     return "\n".join(lines) + "\n"
